@@ -49,6 +49,13 @@ def groups(tier):
     for cfg in ("C64", "C32", "DX"):
         gs += [g for g in common.xof_l2_groups("c09", ["C09"], cfg=cfg) if ("_init." in g.name + "." or "init_fixed.tables" in g.name) and "reinit" not in g.name]
     gs += common.kmac_table_groups("c09", ["C09"])
+    import os
+    gs += c08.byteop_enum_groups("C32", "quick", int(os.environ.get("VERIF_SEED", "0") or 0), props=("C09",), prefix="c09")
+    # the assembly masked backend in every word layout (ASCON_MASKED_MAX_SHARES 4, 3, 2)
+    for ms in (4, 3, 2):
+        gs += common.masked_word_groups("c09", ["C09"], cfg="DEF", max_shares=ms)
+    if tier == "thorough":
+        gs += [g for g in common.masked_asm_permute_groups("c09", ["C09"], "thorough", layouts=(3, 2)) if ".round12" in g.name or ".round0" in g.name or ".round6" in g.name]
     for ms in (2, 3, 4):
         gs += common.masked_word_groups("c09", ["C09"], max_shares=ms)
     gs += common.masked_key_groups("c09", ["C09"])
